@@ -28,6 +28,9 @@ CHECKS["C13"] = ("crash/hang/contract monitor over hostile inputs: in-process wo
 CHECKS["C14"] = ("relational monitor across repeated compilations of generated multi-module projects under perturbed schedules (verif hook: Gosched/sleep at parse points + event log proving distinct parse orders), varied GOMAXPROCS, the Go race detector, and the plain binary; byte comparison of exit status, stderr, gen/*.ssa and .wasm",
  "Held on N projects x K schedules: every run of the same project directory (hook-perturbed ferret-verif under GOMAXPROCS 1/2/4/16, ferret-race, plain ferret; native -keep-gen and wasm) produced the same exit status, byte-identical diagnostics, QBE IL per module and .wasm; the event log showed >=2 distinct parse orders per counted project; the race detector reported nothing.",
  "schedules are sampled (hook points + GOMAXPROCS), not enumerated; map-order nondeterminism is only seen with probability per run; cyclic projects are compared on exit status/presence of the error only (open finding kf-C14-cycle)", "DESIGN.md §3 C14")
+CHECKS["C15"] = ("verdict monitor by construction over projects generated from digraphs (all 512 on 3 modules + sampled larger) compiled by hook-perturbed workers and the ferret-verif CLI under varied GOMAXPROCS/VERIF_SCHED, native run of every DAG against an arithmetic oracle; offline exactly-once checker over the parse event log; porcupine linearizability check of concurrent AddDependency histories recorded at the client boundary",
+ "Held on all 512 digraphs over 3 non-entry modules (exhaustive for that size) and sampled digraphs on 4-6 modules: every cyclic project (self-loops included) failed with a circular-import error and exit 1 without hanging, every DAG compiled under each schedule, its executable printed id+sum-of-dependencies for every module, each module was parsed exactly once; N concurrent AddDependency histories were linearizable w.r.t. 'reject iff imported reaches importer, else insert' and the final graph equalled the accepted edges.",
+ "schedules sampled not enumerated; graphs with >3 modules sampled; porcupine timeouts are inconclusive", "DESIGN.md §3 C15")
 CHECKS["C16"] = ("reference-model monitor: math/big oracle over the exported C API of bigint.c (value and _ptr forms) behind a clang ASan+UBSan driver, limb-boundary-weighted operand workload",
  "Held on N calls: every exported ferret_{i,u}{128,256}_* operation (add, sub, mul, div, mod, comparisons, and/or/xor/not, shl/shr, pow, 64-bit conversions, decimal/hex/octal/binary text conversion) returned the math/big result reduced mod 2^N on every generated operand pair, in both calling forms, without a sanitizer report. Exploration over a 2^256 space: strength comes from boundary weighting (limb edges, sign boundaries, borrow/carry chains), not enumeration.",
  "trusts math/big and the hex transport of the driver; division by zero, negative shifts/exponents are out of the property's domain", "DESIGN.md §3 C16")
